@@ -85,7 +85,7 @@ Why(r) ==
   ELSE IF r.kind = "paths" THEN
      LET NodeByPath(s) == IF \E n \in all : "./" \o RelPath(w, n) = s THEN CHOOSE n \in all : "./" \o RelPath(w, n) = s ELSE 0
          ids == [i \in 1 .. Len(rows) |-> NodeByPath(rows[i][1])]
-         AbsOf(n) == IF n = 0 THEN r.root ELSE r.snapshot[n].path
+         AbsOf(n) == IF n = 0 THEN r.rootpath ELSE r.snapshot[n].path
          Exp(n) == << "./" \o RelPath(w, n), w.nodes[n].name, Str(ExtC(w.nodes[n].namec)), Str(DirC(w, n)), AbsOf(n), AbsOf(w.nodes[n].parent),
                       BoolText(w.nodes[n].namec[1] = "."),
                       BoolText(IF w.nodes[n].kind = "dir" THEN ChildrenOf(w, n) = {} ELSE r.snapshot[n].sizen = 0) >>
